@@ -273,10 +273,28 @@ func evalBurst(c *core.Ctx, cs *core.Case) {
 		c.Fail("C15", cs, "%s: %s", ref.pretty(), first)
 		return
 	}
+	// every content is encoded twice, in two different orders (so with different predecessors): what a
+	// call returns must not depend on what the previous call left behind. The first 400 are compared.
+	m := n
+	if m > 400 {
+		m = 400
+	}
+	seen := make([]string, m+1)
 	for i := 1; i <= n; i++ {
 		c.R.Transitions++
-		if o, _ := mk(i).observeSafe(); o == "error" || strings.HasPrefix(o, "panic") {
+		o, _ := mk(i).observeSafe()
+		if o == "error" || strings.HasPrefix(o, "panic") {
 			c.Fail("C15", cs, "%s: %s", mk(i).pretty(), o)
+			return
+		}
+		if i <= m {
+			seen[i] = o
+		}
+	}
+	for i := m; i >= 1; i -= 2 { // backwards, every second one: other predecessors than in the first pass
+		c.R.Transitions++
+		if o, _ := mk(i).observeSafe(); o != seen[i] {
+			c.Fail("C15", cs, "%s observes %s after %s and %s after %s (the result depends on the call before it)", mk(i).pretty(), seen[i], mk(i-1).pretty(), o, mk(i+2).pretty())
 			return
 		}
 	}
@@ -398,6 +416,11 @@ func pairAlphabets(thorough bool) map[string][]call {
 	}
 	// linear families
 	for ck := 0; ck <= 1; ck++ {
+		// the four FNC placeholders in a set-A and in a set-B context (FNC4 has a different value in each)
+		for _, f := range []string{fnc1, "\u00f2", "\u00f3", "\u00f4"} {
+			add("c128", []byte(f+"\nX"), ck)
+			add("c128", []byte(f+"abc"), ck)
+		}
 		for _, s := range []string{"A", "Ab1", "123456", "\x01x", fnc1 + "1234", "Hello World 0123456789", "ä"} {
 			add("c128", []byte(s), ck)
 		}
